@@ -42,7 +42,7 @@ CONF = {
     "C15": {
         "rule": "rapid histories (5..35 ops) over all 25 transaction types (success and failure of each is required in every run), ledger changes, faults, multi-message transactions; a recording wrapper around the KVStoreService handed to the keeper logs every Set/Delete key per transaction; oracle: recorded keys and committed key diff of a successful transaction are inside the documented write set for that type and argument, failed transactions leave both stores byte-identical, all 19 queries and genesis export record no write; non-trivial = first success (or failure) of a transaction type within a case; distinct by (case shape, type, outcome)",
         "quick": {"rapid": [("TestC15", 600, 1)]},
-        "thorough": {"rapid": [("TestC15", 2500, 16)]},
+        "thorough": {"rapid": [("TestC15", 2500, 16)], "cover": ("TestC15", 1500)},
     },
     "C19": {
         "rule": "rapid histories (4..28 ops) of registry transactions over colliding-prone keys (same token under other domains, tokens one byte apart, denoms differing in case, attester spellings of one key) from genesis states with >=3 entries per registry; after every transaction: exported registries vs reference maps, single-item queries for every live entry (token pairs under 6 hex spellings) and for every named-but-absent key, all scalar queries; every 4th step: pagination sweeps of the five list queries for every page size 1..n+1 in key-cursor and offset mode, forward and reverse, total with count_total; non-trivial = case with a removal, a registry of >=3 entries and a sweep; distinct by op/outcome sequence",
